@@ -184,6 +184,11 @@ def build(seed, thorough):
     # ---- rule 5: more than 256 variants
     add(Item('enum', variants=[(None, 'unit', [])] * 257), 'reject', 'more-than-256-variants')
     add(Item('enum', attrs=[['use_false']], variants=[(None, 'unit', [])] * 300), 'reject', 'more-than-256-variants')
+    # ... also when discriminants are the tags and the first one is not a literal (nothing but the
+    # count can refuse these: the values are not known to the derive)
+    add(Item('enum', attrs=[['use_true']], variants=[((0, '1 - 1'), 'unit', [])] + [(None, 'unit', [])] * 256, repr_='u16'), 'reject', 'more-than-256-variants')
+    add(Item('enum', attrs=[['use_true']], variants=[((0, '0 << 3'), 'unit', [])] + [(None, 'unit', [])] * 299, repr_='u32'), 'reject', 'more-than-256-variants')
+    add(Item('enum', attrs=[['use_true', 'init']], variants=[(None, 'unit', [])] * 257, repr_='u16'), 'reject', 'more-than-256-variants')
     # ---- rule 6: skip combined with *_with or a schema override, at every field position
     for conflict in (['skip', 'ser_with'], ['skip', 'de_with'], ['ser_with', 'de_with', 'skip'], ['skip', 'schema_params'], ['skip', 'schema_funcs'], ['schema_funcs', 'skip']):
         for nf in (1, 3):
